@@ -73,6 +73,10 @@ pub fn string_cfg(id: &str) -> GenCfg {
 pub fn module_for(id: &str, spec: &EnumSpec) -> ModuleSrc {
     match id {
         "C01" => emit::module_string(spec, &ModOpts { property: id, run_fn: "vrt::strfam::c01", twin: None }),
+        "C04" => emit::module_iter(spec, &ModOpts { property: id, run_fn: "vrt::iterfam::c04", twin: None }),
+        "C05" => emit::module_iter(spec, &ModOpts { property: id, run_fn: "vrt::iterfam::c05", twin: None }),
+        "C08" => emit::module_iter(spec, &ModOpts { property: id, run_fn: "vrt::iterfam::c08", twin: None }),
+        "C06" => emit::module_repr(spec, &ModOpts { property: id, run_fn: "vrt::reprfam::c06", twin: None }),
         _ => panic!("no module emitter for {}", id),
     }
 }
@@ -107,6 +111,96 @@ pub fn plan(id: &str, tier: &str, seed: u64, round: u64) -> Plan {
                     "glue (index match, payload rendering) emitted by the harness is trusted".into(),
                     "spellings of distinct variants do not overlap (guaranteed by the generator's repair step)".into(),
                 ],
+            }
+        }
+        "C04" => {
+            let mut specs = Vec::new();
+            let base = gen::IterCfg { derives: derives(&["EnumIter", "EnumCount"]), max_variants: 12, ..Default::default() };
+            // every disabled mask for n <= 7 (2 + 4 + .. + 128 = 254 programs) in round 0; random programs otherwise
+            if round == 0 {
+                for n in 1..=7usize {
+                    for m in 0..(1u32 << n) {
+                        let mut c = base.clone();
+                        c.mask = Some((n, m));
+                        specs.push(gen::gen_iter(&mut rg, &c));
+                    }
+                }
+            }
+            let extra = if thorough { 640 } else { 130 };
+            for _ in 0..extra {
+                specs.push(gen::gen_iter(&mut rg, &base));
+            }
+            name_specs(&mut specs, round);
+            Plan {
+                specs,
+                params: params(&[]),
+                strum_features: vec!["derive".into()],
+                profiles: vec!["dev"],
+                policy: Policy::TaggedOnly,
+                rule: "programs: EnumIter + EnumCount enums with 0..12 variants of all kinds, type/const generics, payload types with non-zero Default; ALL 2^n disabled masks for n = 1..7 (round 0) plus random ones. Oracle: the model list (enabled variants in declaration order, Default payloads): forward, reverse, count/len/COUNT, and a both-ends walk. Non-trivial = a disabled variant before the last enabled one, or a data-carrying variant; distinct by program.".into(),
+                assumptions: vec!["glue (index match, payload rendering) emitted by the harness is trusted".into()],
+            }
+        }
+        "C05" => {
+            let mut specs = Vec::new();
+            let reps = if thorough { 6 } else { 3 };
+            for n in 0..=8usize {
+                for _ in 0..reps {
+                    let c = gen::IterCfg { derives: derives(&["EnumIter"]), max_variants: 12, n_enabled: Some(n), ..Default::default() };
+                    specs.push(gen::gen_iter(&mut rg, &c));
+                }
+            }
+            name_specs(&mut specs, round);
+            Plan {
+                specs,
+                params: params(&[("depth", if thorough { 4 } else { 3 }), ("cases", if thorough { 20000 } else { 3000 })]),
+                strum_features: vec!["derive".into()],
+                profiles: vec!["dev", "rel"],
+                policy: Policy::TaggedOnly,
+                rule: "programs: EnumIter enums with N = 0..8 enabled variants (several each, with interleaved disabled variants, data variants, type parameters); histories: ALL sequences over {next, next_back, nth(k), nth_back(k), clone, switch-copy} with k in 0..N+1 (phase 1) and additionally usize::MAX-1, usize::MAX (phase 2) up to the stated depth, all skip/step_by/take/rev chains of depth <= 2, then proptest histories of length < 64; run in a dev build (overflow checks on) and a release build (off). Oracle: std's Range<usize> mirrored step by step (item, len, size_hint after every call, independent copies, drain + fusedness at the end, no panic). Non-trivial = history touching both ends, or nth/nth_back with k >= 1, or a copy; distinct by (program, history).".into(),
+                assumptions: vec!["std::ops::Range<usize> is a correct double-ended exact-size fused iterator".into()],
+            }
+        }
+        "C08" => {
+            let n = if thorough { 640 } else { 256 };
+            let mut specs = Vec::new();
+            for i in 0..n {
+                let fieldless = i % 2 == 0;
+                let mut d = vec!["EnumIter", "EnumCount", "VariantNames"];
+                if fieldless {
+                    d.push("VariantArray");
+                }
+                let c = gen::IterCfg { derives: derives(&d), max_variants: 10, fieldless, naming: true, discriminants: fieldless, mask: if i % 3 == 0 { Some((rg.range(0, 9), 0)) } else { None }, ..Default::default() };
+                specs.push(gen::gen_iter(&mut rg, &c));
+            }
+            name_specs(&mut specs, round);
+            Plan {
+                specs,
+                params: params(&[]),
+                strum_features: vec!["derive".into()],
+                profiles: vec!["dev"],
+                policy: Policy::TaggedOnly,
+                rule: "programs: enums deriving EnumCount + EnumIter + VariantNames (+ VariantArray when field-less) with 0..10 variants, naming attributes, serialize_all, prefix, explicit discriminants, generics and disabled variants (a third without any). Oracle: COUNT == #enabled == iter().count(); VariantNames::VARIANTS == model canonical names of ALL declared variants in order; VariantArray::VARIANTS[i] is declaration index i; without disabled variants position i agrees across all four. Non-trivial = >= 3 variants and (disabled variant or naming attribute or explicit discriminant); distinct by program.".into(),
+                assumptions: vec!["canonical-name model as in C03".into()],
+            }
+        }
+        "C06" => {
+            let per = if thorough { 48 } else { 16 };
+            let mut specs = Vec::new();
+            for r in gen::REPRS.iter() {
+                for _ in 0..per {
+                    specs.push(gen::gen_repr(&mut rg, *r, &derives(&["FromRepr"])));
+                }
+            }
+            name_specs(&mut specs, round);
+            Plan {
+                specs,
+                params: params(&[("cases", if thorough { 20000 } else { 2000 })]),
+                strum_features: vec!["derive".into()],
+                profiles: vec!["dev"],
+                policy: Policy::TaggedOnly,
+                rule: "programs: FromRepr enums for each repr in {none,u8,i8,u16,i16,u32,i32,u64,i64,usize,isize} with any mix of implicit and explicit discriminants (decimal, hex, shifts, sums, a typed BASE const, negative, gapped, descending, near MIN/MAX), disabled variants anywhere, data variants where rustc allows them. Inputs: EVERY value of 8/16-bit discriminant types; for wider types every discriminant +-1/+-2, 0, MIN, MAX, dense indices and proptest-generated values. Oracle: the discriminant rule over ALL declared variants (cross-checked against rustc through `v as R` / the documented pointer read on every variant), Some(V with Default payload) iff V enabled and disc(V) == d; const-evaluated from_repr for field-less enums. Non-trivial = program with a disabled variant before an enabled one, an explicit discriminant or a signed repr, and d within +-1 of a declared discriminant; distinct by (program, d).".into(),
+                assumptions: vec!["`v as R` and the primitive-repr pointer read give rustc's discriminant".into()],
             }
         }
         _ => panic!("unknown property {}", id),
